@@ -160,7 +160,7 @@ class Module:
             return ('func', m.funcs[attr])
         if attr in m.classes:
             return ('class', m.classes[attr])
-        sub = self._module_file(mod + '.' + attr)
+        sub = self._module_file(mod + attr if mod.endswith('.') else mod + '.' + attr)
         if sub is not None:
             return ('module', Module.load(sub))
         if attr in m.imports:
